@@ -27,7 +27,8 @@ const (
 type Ob struct {
 	ID        string   `json:"id"`        // e.g. "C02.O1"
 	Rule      string   `json:"rule"`      // e.g. "ACK-GUARD"
-	Func      string   `json:"func"`      // enclosing function
+	Func      string   `json:"func"`      // enclosing function (for the reader)
+	KeyFunc   string   `json:"key_func"`  // enclosing function if it is exported API, else "" (private names are not part of a key)
 	Pos       string   `json:"pos"`       // file:line (informational)
 	Construct string   `json:"construct"` // name of the construct, free of line numbers
 	Verdict   Verdict  `json:"verdict"`
@@ -37,7 +38,7 @@ type Ob struct {
 }
 
 // Key identifies the obligation instance in known_findings.json and replays.
-func (o Ob) Key() string { return o.ID + "|" + o.Rule + "|" + o.Func + "|" + o.Construct }
+func (o Ob) Key() string { return o.ID + "|" + o.Rule + "|" + o.KeyFunc + "|" + o.Construct }
 
 // Check collects the obligations of one property on one build configuration.
 type Check struct {
@@ -61,6 +62,31 @@ func FnName(fn *ssa.Function) string {
 		return "<missing>"
 	}
 	return Short(fn.RelString(nil))
+}
+
+// keyFunc names fn in obligation keys only when it is exported API (a private
+// function or a literal inside one may be renamed without changing behaviour).
+func keyFunc(fn *ssa.Function) string {
+	if fn == nil {
+		return ""
+	}
+	root := fn
+	for root.Parent() != nil {
+		root = root.Parent()
+	}
+	obj := root.Object()
+	if obj == nil || !obj.Exported() {
+		return ""
+	}
+	if recv := root.Signature.Recv(); recv != nil {
+		if n := NamedOf(recv.Type()); n == nil || !n.Obj().Exported() {
+			return ""
+		}
+	}
+	if root != fn {
+		return FnName(root) + "$literal"
+	}
+	return FnName(root)
 }
 
 // Use records that fn was analysed; returns false (and an ANCHOR violation)
@@ -90,13 +116,13 @@ func (c *Check) Report(ok bool, id, rule string, fn *ssa.Function, pos token.Pos
 		c.Funcs[FnName(fn)] = true
 	}
 	c.Sites++
-	c.add(Ob{ID: id, Rule: rule, Func: FnName(fn), Pos: c.P.Pos(pos), Construct: construct, Verdict: v, Why: why, Witness: witness})
+	c.add(Ob{ID: id, Rule: rule, Func: FnName(fn), KeyFunc: keyFunc(fn), Pos: c.P.Pos(pos), Construct: construct, Verdict: v, Why: why, Witness: witness})
 	return ok
 }
 
 // Undecided records that the rule's idiom was not recognised.
 func (c *Check) Undecided(id, rule string, fn *ssa.Function, pos token.Pos, construct, why string) {
-	c.add(Ob{ID: id, Rule: rule, Func: FnName(fn), Pos: c.P.Pos(pos), Construct: construct, Verdict: Undecided, Why: why})
+	c.add(Ob{ID: id, Rule: rule, Func: FnName(fn), KeyFunc: keyFunc(fn), Pos: c.P.Pos(pos), Construct: construct, Verdict: Undecided, Why: why})
 }
 
 // Note records an informational line.
@@ -123,14 +149,15 @@ type KnownFinding struct {
 	Property  string `json:"property"`
 	ID        string `json:"id"`
 	Rule      string `json:"rule"`
-	Func      string `json:"func"`
+	Func      string `json:"func"`     // informational: where it is today
+	KeyFunc   string `json:"key_func"` // part of the key: exported enclosing function or ""
 	Construct string `json:"construct"`
 	What      string `json:"what"`
 	Status    string `json:"status"` // "open" or "fixed"
 	Commit    string `json:"commit,omitempty"`
 }
 
-func (k KnownFinding) Key() string { return k.ID + "|" + k.Rule + "|" + k.Func + "|" + k.Construct }
+func (k KnownFinding) Key() string { return k.ID + "|" + k.Rule + "|" + k.KeyFunc + "|" + k.Construct }
 
 type KnownFile struct {
 	Findings []KnownFinding `json:"findings"`
